@@ -276,6 +276,15 @@ func (w *world) scenarios(signed string) []scenario {
 		sc = append(sc, scenario{name: "alt:only-second-signer-key", certain: "", keys: w.signerPubs()[1:]})
 	}
 	sc = append(sc, scenario{name: "alt:private-key-file-as-layout-key", certain: "", keys: w.signerPrivs()})
+	// every NAMED key file has to load: a missing file or a directory ends the command, and a
+	// name with glob characters is a file name, not a pattern
+	kdir := filepath.Join(w.root, "keys")
+	sc = append(sc, scenario{name: "tamper:additional-key-path-missing", certain: "nz", keys: append(w.signerPubs(), filepath.Join(kdir, "owners", "missing.pub"))})
+	sc = append(sc, scenario{name: "tamper:only-key-path-missing", certain: "nz", keys: []string{filepath.Join(kdir, "missing.pub")}})
+	sc = append(sc, scenario{name: "tamper:directory-as-additional-key-path", certain: "nz", keys: append(w.signerPubs(), kdir)})
+	literal := filepath.Join(kdir, "[a]lice*.pub")
+	copyFile(w.signerPubs()[0], literal)
+	sc = append(sc, scenario{name: "alt:key-file-name-with-glob-characters", certain: "0", keys: append([]string{literal}, w.signerPubs()[1:]...)})
 	if cfg.Norm {
 		sc = append(sc, scenario{name: "tamper:verify-without-normalize-line-endings", certain: "nz", noNorm: true})
 	}
@@ -606,6 +615,11 @@ func showLists(a, b, c []string) string {
 
 func (w *world) matchProductsCases(final string) {
 	cfg := w.cfg
+	for _, s := range cfg.Steps {
+		if s.ManyProds > 0 {
+			return // the deliverable of these chains is one file out of thousands of recorded products
+		}
+	}
 	n := len(cfg.Steps)
 	k := w.stepKey(n-1, cfg.Steps[n-1].Keys[0])
 	link := filepath.Join(w.root, "links", expectedName(cfg.Steps[n-1].Name, k.keyID))
@@ -655,7 +669,22 @@ func (w *world) matchProductsCases(final string) {
 				target = filepath.Join(d, deliver)
 			}
 			for _, p := range prods {
-				copyFile(filepath.Join(src, p), filepath.Join(target, p))
+				b, err := os.ReadFile(filepath.Join(src, p))
+				if err != nil {
+					continue
+				}
+				if cfg.Norm {
+					b = normalizeLF(b) // match-products hashes without normalisation; the link holds normalised digests
+				}
+				writeFile(filepath.Join(target, p), b)
+			}
+			if cfg.DirMode && cfg.FollowSymlinks {
+				// the link also lists the file reached through the symlinked directory
+				b, _ := os.ReadFile(filepath.Join(w.root, "shared", "s.txt"))
+				if cfg.Norm {
+					b = normalizeLF(b)
+				}
+				writeFile(filepath.Join(target, "linked", "s.txt"), b)
 			}
 			os.MkdirAll(target, 0o755)
 			if x.mut != nil {
